@@ -38,7 +38,9 @@ def cases(tier, seed):
     yield {"k": "anchor", "s": SV1, "v": -0.41}
     yield {"k": "anchor", "s": SV30, "v": -27.84}
     for s in ["E" * 150, "EK" * 100, "KKG" * 100, "E" * 140 + "K" * 140, "RSED" * 120, "K" * 300, "KGGGGGGGGE",
-              "G" * 50 + "K", "K" + "G" * 50, "MGGGK", "KGGGM", "S", "K", "KE", "EK" * 300]:
+              "G" * 50 + "K", "K" + "G" * 50, "MGGGK", "KGGGM", "S", "K", "KE", "EK" * 300,
+              "KKKKK" + "GS" * 75 + "EEEEE", "K" + "Q" * 120 + "E", "RE" + "VPGVG" * 30 + "DK", "E" + "G" * 99 + "K", "E" + "G" * 100 + "K",
+              "DD" + "N" * 101 + "KK" + "S" * 130 + "E", "K" + "P" * 260 + "K"]:
         yield {"k": "seq", "s": s, "pre": 0}
     for w in gen.CODE_WORDS:
         yield {"k": "seq", "s": w, "pre": 0}
